@@ -122,3 +122,11 @@ func Dispatch(t *testing.T, cfg core.Config) {
 		os.Exit(core.ExitInternal)
 	}
 }
+
+func init() {
+	// the probe / fault tables must match the counters the engines fill in
+	if len(kProbeNames) != nKProbes || len(kFaultNames) != nKFaults || len(rProbeNames) != nRProbes || len(rFaultNames) != nRFaults ||
+		len(cProbeNames) != nCProbes || len(cFaultNames) != nCFaults || len(qProbeNames) != nQProbes {
+		panic("probe/fault name tables out of sync")
+	}
+}
